@@ -614,8 +614,8 @@ class PseudoNetCDFFile(PseudoNetCDFSelfReg, object):
         # right = dimevals[-1] + 1
         if method == 'bounds':
             fidx = np.interp(val, dimevals, idx, left=left, right=right)
-            if right is None or right == dimevals[-1]:
-                fidx = np.minimum(fidx, dimvals.size - 1)
+            # the outermost edge (fractional index n) belongs to the last cell
+            fidx = np.where(fidx == dimvals.size, dimvals.size - 1, fidx)
         else:
             fidx = np.interp(val, dimvals, idx, left=left, right=right)
 
